@@ -186,6 +186,9 @@ def main(tier):
     with Scratch() as sc:
         mc, itotal, intriv, paths = run_interfaces(sc, rep)
         st, tr, total, nontriv, viol, sample = check_expr.run_family(prop, "dispatch", tier, sc, rep)
+        # composite (tuple-valued) dispatch values: same machine, another universe of dispatch values
+        st2, tr2, total2, nontriv2, viol2, _ = check_expr.run_family(prop, "tupledispatch", tier, sc, rep)
+        st, tr, total, nontriv, viol = st + st2, tr + tr2, total + total2, nontriv + nontriv2, viol + viol2
     from . import verdicts
 
     viol.sort(key=lambda v: (len(canon(v[2]["nodes"])), len(canon(v[2]["a"]["hist"])), canon(v[2])))
@@ -204,13 +207,13 @@ def main(tier):
                 "member name, any alias set, any provided-member set incl. unknown names) replayed on real @interface/@implements "
                 "classes: accepted/rejected-with-TypeError as specified, nothing run, and afterwards every member under every alias "
                 "equals the specification's table (a rejected definition registered nothing); non-trivial = a rejected definition. "
-                "(b) family dispatch: datasets with dispatch over an option key / Option with default / dataset, callbacks, overloads "
+                "(b) families dispatch and tupledispatch (dispatch values 1, '1' / the tuples (1,'1'), (1,1) and the bare 1): datasets with dispatch over an option key / Option with default / dataset, callbacks, overloads "
                 "registered before and between calls; every history of <= 3 calls (exhaustive <= 3-4 nodes, simulated beyond) replayed "
                 "on one long-lived real graph: each call yields the specification's value under the tables at that time or a value the "
                 "same dictionary produced earlier; non-trivial = a table is non-empty",
         "samples": [sample or {}, [{k: v for k, v in a.items() if k != "obs"} for a in paths[len(paths) // 2]]],
         "exhaustive": True,
-        "interface_paths": itotal, "dispatch_histories": total,
+        "interface_paths": itotal, "dispatch_histories": total, "tuple_dispatch_histories": total2,
         "known_finding_hits": rep.known_hits,
     }, timer.s(), violations=len(rep.violations), assumptions=check_expr.ASSUME + [
         "an alias is registered at most once per dataset in a history (which of two registrations of one alias wins is not stated)"])
